@@ -394,7 +394,7 @@ func (l *lexer) mul() Expr {
 }
 
 func (l *lexer) unary() Expr {
-	if l.isOp("!") || l.isOp("-") {
+	if l.isOp("!") || l.isOp("-") || l.isOp("*") {
 		op := l.next().text
 		return &EUnary{op, l.unary()}
 	}
